@@ -163,6 +163,7 @@ func main() {
 			}
 		}
 		w := bufio.NewWriterSize(os.Stdout, 1<<20)
+		flushEach := os.Getenv("VH_FLUSH") == "1" // used by the check to locate a request that kills the process
 		finish := func() {
 			w.Flush()
 			if ow != nil {
@@ -184,6 +185,9 @@ func main() {
 			}
 			for _, t := range res.Tags {
 				stats[t]++
+			}
+			if flushEach {
+				w.Flush()
 			}
 			if res.Out == "timeout" && k+1 < len(lines) {
 				tmp, err := os.CreateTemp("", "vh-resume-*.txt")
